@@ -59,8 +59,12 @@ QS = f"{ESC}5[Cc]"
 QUTF8 = r"[^'\\]"
 DSTRING = f"({QS}|{QQ}|{QUTF8})+"
 QDSTRING = f"{SQUOTE}{DSTRING}{SQUOTE}"
-QDSTRINGLIST = f"({QDSTRING}({SP}{QDSTRING})*)?"
-QDSTRINGS = f"({QDSTRING}|{LPAREN}{WSP}{QDSTRINGLIST}{WSP}{RPAREN})"
+QDSTRINGLIST = f"({QDSTRING}({SP}{QDSTRING})*)"
+# The list is optional but the whitespace after it must only be matched when
+# the list is present. Two adjacent optional whitespace runs in an empty list
+# '( )' can be matched in more than one way, a definition with many such
+# extensions that fails later on then backtracks exponentially.
+QDSTRINGS = f"({QDSTRING}|{LPAREN}{WSP}({QDSTRINGLIST}{WSP})?{RPAREN})"
 
 
 XSTRING = f"[xX]{HYPHEN}([a-zA-Z]|{HYPHEN}|{USCORE})+"
